@@ -196,6 +196,11 @@ FIXED = [
     ("fixed", task([["1/2"]], [6], ["1"])),
     ("fixed", task([[0]], [3], ["2"])),
     ("fixed", task([[0, 0], [1, 1]], [4, 1], ["3", "0"])),
+    # delay chains whose general solution coincides with an EARLY transient value but not with a later one
+    # (x = 5, 7, 2, 7, 7, ...): every transient up to the last differing one is a special case
+    ("fixed", task([[0, 1, 0], [0, 0, 1], [0, 0, 0]], [5, 7, 2], ["0", "0", "7"])),
+    ("fixed", task([[0, 1, 0, 0], [0, 0, 1, 0], [0, 0, 0, 1], [0, 0, 0, 1]], [1, 7, 3, 7])),
+    ("fixed", task([[0, 1, 0, 0], [0, 0, 1, 0], [0, 0, 0, 1], [0, 0, 0, 0]], [0, 4, 0, 9], ["0", "0", "0", "0"])),
 ]
 
 
